@@ -383,6 +383,16 @@ func runC03(c *runCfg) error {
 			raw = append(raw, mSync()...)
 			cs = flatCase(i, "surplus", cfg, raw, nil)
 		}
+		if i%10 == 4 {
+			// Sync / Flush carrying a body inside a COPY: the body is consumed with its message, in every segmentation
+			bcfg, hs := copyBodyCases(64)
+			h := hs[(i/10)%len(hs)]
+			raw := append([]byte{}, stdStartup...)
+			for _, m := range h {
+				raw = append(raw, m...)
+			}
+			cs = flatCase(i, "copy_bodies", bcfg, raw, nil)
+		}
 		if i%10 == 7 {
 			// a declared length at the edges of the 32-bit range (above every limit): exactly that many bytes belong to
 			// the message — here: everything the client still sends — and none of them is ever interpreted
